@@ -9,7 +9,13 @@ CONSTANTS Prim,         \* primary key objects
           Created,      \* [Comp -> Nat]
           IsPublic,     \* [Comp -> BOOLEAN]
           MaxDepth,
-          Fixed         \* TRUE: _add_alias puts a new holder into a layer that lacks the alias (repaired code)
+          Fixed,        \* TRUE: _add_alias puts a new holder into a layer that lacks the alias (repaired code)
+          Squeeze,      \* [query -> query]: the query with its spaces removed (identity on space-free strings); DOMAIN = all queries
+          HexLike,      \* the queries whose space-free form looks like a fingerprint / key id (8..40 hex digits)
+          FallbackAll,  \* TRUE: the space-free form is tried for EVERY query (as found); FALSE: for HexLike ones only (repaired)
+          ReloadSubs,   \* TRUE: load() of a loaded key object still (re-)adds its subkeys (repaired); FALSE: it does nothing (as found)
+          PreferPrivate,\* TRUE: key(message) takes a loaded recipient whose private half is loaded first (repaired); FALSE: any loaded one
+          Msgs          \* set of messages, each the set of recipient key ids (aliases)
 VARIABLES keys, layers, prim
 vars == <<keys, layers, prim>>
 Comp == Prim \cup UNION {Range(SubsOf[p]) : p \in Prim}
@@ -58,18 +64,36 @@ RECURSIVE PopKeys(_, _, _)
 PopKeys(ls, hs, k) == IF k > Len(hs) THEN ls ELSE PopKeys(PopAll(ls, AliasSeq[hs[k]], hs[k]), hs, k + 1)
 Objs(p) == <<p>> \o SubsOf[p]
 
+SubObjs == Comp \ Prim
+NotHeld(hs) == SelectSeq(hs, LAMBDA h : h \notin keys)        \* _add_key: `if pkid not in self._keys`
+HeldOf(hs) == SelectSeq(hs, LAMBDA h : h \in keys)            \* unload: `if pkid in self._keys`
 Init == keys = {} /\ layers = <<EmptyMap>> /\ prim = {}
 Load(p) == /\ p \notin prim
            /\ prim' = prim \cup {p}
            /\ keys' = keys \cup Range(Objs(p))
-           /\ layers' = AddKeys(layers, Objs(p), 1)
+           /\ layers' = AddKeys(layers, NotHeld(Objs(p)), 1)
+ReloadKeys(p) == IF ReloadSubs THEN keys \cup Range(SubsOf[p]) ELSE keys
+\* load() of a key object that is loaded already: as found nothing happens; repaired, its subkeys are (re-)added
+Reload(p) == /\ p \in prim
+             /\ UNCHANGED prim
+             /\ keys' = ReloadKeys(p)
+             /\ layers' = IF ReloadSubs THEN AddKeys(layers, NotHeld(SubsOf[p]), 1) ELSE layers
 Unload(p) == /\ p \in prim
              /\ prim' = prim \ {p}
              /\ keys' = keys \ Range(Objs(p))
-             /\ layers' = PopKeys(layers, Objs(p), 1)
-LoadAny == \E p \in Prim : Load(p)
+             /\ layers' = PopKeys(layers, HeldOf(Objs(p)), 1)
+\* a subkey OBJECT loaded / unloaded on its own (`with ring.key(message) as k: ring.unload(k)` does the latter)
+LoadSub(h) == /\ h \in SubObjs /\ h \notin keys
+              /\ keys' = keys \cup {h} /\ layers' = AddAll(layers, AliasSeq[h], 1, h) /\ UNCHANGED prim
+UnloadSub(h) == /\ h \in SubObjs /\ h \in keys
+                /\ keys' = keys \ {h} /\ layers' = PopAll(layers, AliasSeq[h], h) /\ UNCHANGED prim
+LoadAny == \E p \in Prim : Load(p) \/ Reload(p)
 UnloadAny == \E p \in Prim : Unload(p)
-Next == LoadAny \/ UnloadAny
+SubAny == \E h \in SubObjs : LoadSub(h) \/ UnloadSub(h)
+Next == LoadAny \/ UnloadAny \/ SubAny
+\* whenever load(p) returns, p and all its subkeys are held - also when p was loaded already (a state predicate on what Reload would
+\* leave behind: as found Reload is a stuttering step, which an action property [A]_vars cannot see)
+LoadHoldsAll == \A p \in prim : Range(Objs(p)) \subseteq ReloadKeys(p)
 DepthBound == TLCGet("level") <= MaxDepth
 Spec == Init /\ [][Next]_vars
 \* ---- the observation, read off the layers exactly as _get_key does ----
@@ -85,5 +109,27 @@ Consistent == \A a \in Alias :
 NoDangling == \A i \in 1..Len(layers) : \A a \in DOMAIN layers[i] : layers[i][a] \in keys /\ Carries(layers[i][a], a)
 \* every holder of an alias appears in exactly one layer, no alias maps are empty (except the initial one)
 Complete == \A h \in keys : \A a \in Range(AliasSeq[h]) : Cardinality({i \in 1..Len(layers) : Has(layers[i], a) /\ layers[i][a] = h}) = 1
-KeysOK == keys = UNION {Range(Objs(p)) : p \in prim}
+KeysOK == prim \subseteq keys /\ keys \subseteq Comp
+\* ---- _get_key for an arbitrary query string: per layer, the string as it is, then its space-free form
+Sq(q) == IF FallbackAll \/ q \in HexLike THEN Squeeze[q] ELSE q
+Hit(m, q) == Has(m, q) \/ Has(m, Sq(q))
+GetKey(q) == IF \E i \in 1..Len(layers) : Hit(layers[i], q)
+             THEN LET i == CHOOSE i \in 1..Len(layers) : Hit(layers[i], q) /\ \A j \in 1..(i-1) : ~Hit(layers[j], q)
+                  IN IF Has(layers[i], q) THEN layers[i][q] ELSE layers[i][Sq(q)]
+             ELSE "none"
+\* what a query may select: a held object that carries it - a fingerprint / key id also in its grouped (spaced) form
+Answers(h, q) == Carries(h, q) \/ (q \in HexLike /\ Carries(h, Squeeze[q]))
+QueryOK == \A q \in DOMAIN Squeeze :
+             IF \E h \in keys : Answers(h, q) THEN GetKey(q) \in keys /\ Answers(GetKey(q), q) ELSE GetKey(q) = "none"
+\* ---- key(message): the recipients that are in the ring, in the order python meets them (a set: any order), the first taken;
+\*      repaired: those whose selection is a private key come first
+Outcomes(M) == LET inring == {a \in M : InRing(layers, a)}
+                   sel == {Select(a) : a \in inring}
+               IN IF sel = {} THEN {"none"}
+                  ELSE IF PreferPrivate /\ \E h \in sel : ~IsPublic[h] THEN {h \in sel : ~IsPublic[h]} ELSE sel
+\* selection by message yields a key that can decrypt it whenever such a key is held
+MsgOK == \A M \in Msgs : \A r \in Outcomes(M) :
+           IF \E h \in keys : ~IsPublic[h] /\ (\E a \in M : Carries(h, a)) THEN r \in keys /\ ~IsPublic[r] /\ (\E a \in M : Carries(r, a))
+           ELSE IF \E h \in keys : \E a \in M : Carries(h, a) THEN r \in keys /\ (\E a \in M : Carries(r, a))
+           ELSE r = "none"
 =============================================================================
